@@ -140,9 +140,10 @@ class _STIXBase(collections.abc.Mapping):
         extensions = kwargs.get("extensions")
         registered_toplevel_extension_props = {}
         has_unregistered_toplevel_extension = False
-        if extensions:
+        if isinstance(extensions, collections.abc.Mapping):
             for ext_id, ext in extensions.items():
-                if ext.get("extension_type") == "toplevel-property-extension":
+                if isinstance(ext, collections.abc.Mapping) and \
+                        ext.get("extension_type") == "toplevel-property-extension":
                     registered_ext_class = class_for_type(
                         ext_id, "2.1", "extensions",
                     )
